@@ -290,7 +290,7 @@ SWEEP_RUNS = {"Snake": 1024, "Game2048": 1024, "Knapsack": 2048, "Connector": 25
               "Tetris": 512, "LevelBasedForaging": 256, "TSP": 2048, "Cleaner": 512, "CVRP": 2048, "GraphColoring": 1024,
               "SlidingTilePuzzle": 1024, "RubiksCube": 512, "JobShop": 512, "FlatPack": 512, "MultiCVRP": 256,
               "RobotWarehouse": 128, "Sokoban": 128, "Sudoku": 256, "MMST": 64}
-SWEEP_QUICK = ("Snake", "Game2048", "Knapsack", "Maze", "Minesweeper", "TSP", "Cleaner", "Tetris")
+SWEEP_QUICK = ("Snake", "Game2048", "Knapsack", "Maze", "Minesweeper", "TSP", "Cleaner", "Tetris", "RubiksCube", "SlidingTilePuzzle")
 
 
 def _tree_same(x, y):
@@ -317,8 +317,9 @@ def _tree_same(x, y):
 def sweep(rig, base_words, salt, n_runs, n_steps=N_STEPS):
     """n_runs runs of n_steps wrapper steps in one vmapped scan: every wrapper step is compared on the device with the
     reference composition (unwrapped step; on LAST reset with the derivation pinned for this rig).  Returns (first
-    mismatching step per run or -1, boundaries per run, key words, actions); mismatching runs are re-judged by
-    run_case on the host."""
+    mismatching step per run or -1, boundaries per run, key words, actions, boundary flags, state key after each
+    automatic reset); mismatching runs, and runs whose automatic resets produced the same state key twice (within a run
+    or across runs started from different keys), are re-judged by run_case on the host."""
     import jax
     import jax.numpy as jnp
 
@@ -355,15 +356,18 @@ def sweep(rig, base_words, salt, n_runs, n_steps=N_STEPS):
                     ex = {k: v for k, v in ex.items() if k != "next_obs"}
                 ok = ok & _tree_same(ex, dict(ts1.extras) if isinstance(ts1.extras, dict) else ts1.extras)
                 first = jnp.where((first < 0) & ~ok, i, first)
-                return (ws2, wts2, first, nb + last.astype(jnp.int32)), a
+                k2 = ws2.key
+                if jnp.issubdtype(k2.dtype, jax.dtypes.prng_key):
+                    k2 = jax.random.key_data(k2)
+                return (ws2, wts2, first, nb + last.astype(jnp.int32)), (a, last, jnp.where(last, k2, jnp.zeros_like(k2)))
 
-            (_, _, first, nb), acts = jax.lax.scan(body, (ws, wts, jnp.asarray(-1, jnp.int32), jnp.asarray(0, jnp.int32)),
-                                                   jnp.arange(n_steps))
-            return first, nb, key, acts
+            (_, _, first, nb), (acts, lasts, bkeys) = jax.lax.scan(
+                body, (ws, wts, jnp.asarray(-1, jnp.int32), jnp.asarray(0, jnp.int32)), jnp.arange(n_steps))
+            return first, nb, key, acts, lasts, bkeys
 
         rig._sweep = jax.jit(jax.vmap(one, in_axes=(None, None, 0)))
-    first, nb, keys, acts = rig._sweep(envs.make_key(base_words), jnp.asarray(salt, jnp.int32), jnp.arange(n_runs))
-    return np.asarray(first), np.asarray(nb), np.asarray(keys), np.asarray(acts)
+    first, nb, keys, acts, lasts, bkeys = rig._sweep(envs.make_key(base_words), jnp.asarray(salt, jnp.int32), jnp.arange(n_runs))
+    return np.asarray(first), np.asarray(nb), np.asarray(keys), np.asarray(acts), np.asarray(lasts), np.asarray(bkeys)
 
 
 def run_sweep(item, seed):
@@ -387,13 +391,22 @@ def run_sweep(item, seed):
 
         def one(key, salt):
             with ctx.guard(env, {"env": env, "entry": entry, "flag": flag, "key": list(key), "actions": [], "stage": "sweep"}):
-                first, nb, kws, acts = sweep(rig, key, salt, item["runs"])
+                first, nb, kws, acts, lasts, bkeys = sweep(rig, key, salt, item["runs"])
+            # "successive automatic resets start from different keys": the state keys after all automatic resets of the
+            # batch (different runs start from different keys) must be pairwise different
+            seen, suspects = {}, []
+            for e, t in zip(*np.nonzero(lasts)):
+                k = (int(bkeys[e, t, 0]), int(bkeys[e, t, 1])) if bkeys.ndim == 3 else int(bkeys[e, t])
+                if k in seen and len(suspects) < 4:
+                    suspects += [seen[k], int(e)]
+                seen.setdefault(k, int(e))
+            ctx.count("sweep_reset_keys_compared", len(seen))
             ctx.evals(int(len(first)) * N_STEPS)
             ctx.count("sweep_runs", len(first))
             ctx.count("sweep_wrapper_steps", int(len(first)) * N_STEPS)
             ctx.count("sweep_boundaries", int(nb.sum()))
             ctx.nontrivial(env, entry, flag, "sweep", int(nb.sum()))
-            for e in np.flatnonzero(first >= 0)[:3]:
+            for e in list(np.flatnonzero(first >= 0)[:3]) + suspects:
                 kw = [int(kws[e][0]), int(kws[e][1])]
                 case = {"env": env, "entry": entry, "flag": flag, "key": kw, "stack": False, "typed": False,
                         "actions": [np.asarray(a).tolist() for a in acts[e]]}
@@ -429,7 +442,7 @@ def work_items(tier, flt):
         win = [e for e in WIN_ENTRY.get(env, []) if e != SHORT_ENTRY[env] and (tier != "quick" or env in WIN_QUICK)]
         es = [SHORT_ENTRY[env]] + win
         if tier == "quick" and env not in QUICK_ENVS:
-            es = win
+            es = list(WIN_ENTRY.get(env, [])) if env in WIN_QUICK else []
         if tier == "thorough" and env in SECOND_ENTRY:
             es.append(SECOND_ENTRY[env])
         if flt and flt.get("entry"):
